@@ -1,5 +1,6 @@
 import ScrapliProps.C04Reach
 import ScrapliModel.Gen.PrivTables
+import ScrapliModel.Priv.Cache
 /-
   C04 — acquire_priv reaches the target level or fails in bounded steps.
   Property theorems only (helper lemmas: C04Lemmas.lean — trees and the path search,
@@ -212,6 +213,72 @@ theorem acquire_bounded {σ : Type} (c : Cfg) (d : Dev σ) (w : W σ) (dest : Na
 
 /-- the generated loop factor is the one the property speaks about (`> 2 * len`) -/
 theorem loopFactor_is_two : loopFactor = 2 := by decide
+
+/-! ### the classification memo is coherent (why the driver model may classify without a memo) -/
+
+/-- every memo entry is what classification on the CURRENT table gives -/
+def Coherent (s : CState) : Prop := ∀ e ∈ s.memo, e.2 = classify s.tbl e.1
+
+theorem classifyMemo_coherent (memoised : Bool) {s : CState} (h : Coherent s) (keys : List String) :
+    (classifyMemo memoised s keys).1 = classify s.tbl keys ∧ Coherent (classifyMemo memoised s keys).2 ∧
+    (classifyMemo memoised s keys).2.tbl = s.tbl := by
+  unfold classifyMemo
+  cases memoised with
+  | false => exact ⟨rfl, h, rfl⟩
+  | true =>
+    simp only [if_true]
+    cases hf : s.memo.find? (fun e => e.1 == keys) with
+    | some e =>
+      have hk : e.1 = keys := by simpa using List.find?_some hf
+      exact ⟨by show e.2 = _; rw [h e (List.mem_of_find?_eq_some hf), hk], h, rfl⟩
+    | none =>
+      refine ⟨rfl, ?_, rfl⟩
+      intro e he
+      rcases List.mem_cons.mp he with rfl | he
+      · rfl
+      · exact h e he
+
+/-- **cache coherence**: if every registration clears the memo, then after ANY history of
+    classifications and registrations every classification equals the memo-free classification on
+    the table as it then is -/
+theorem memo_run_eq (memoised : Bool) : ∀ (ops : List COp) (s s' : CState), Coherent s → s'.tbl = s.tbl →
+    runMemo memoised true s ops = runMemo false true s' ops := by
+  intro ops
+  induction ops with
+  | nil => intro _ _ _ _; rfl
+  | cons op ops ih =>
+    intro s s' h ht
+    cases op with
+    | classify keys =>
+      obtain ⟨h1, h2, h3⟩ := classifyMemo_coherent memoised h keys
+      simp only [runMemo]
+      have e2 : (classifyMemo false s' keys).2 = s' := by simp [classifyMemo]
+      have e1 : (classifyMemo false s' keys).1 = classify s.tbl keys := by simp [classifyMemo, ht]
+      rw [h1, e1, e2, ih _ s' h2 (by rw [h3, ht])]
+    | register l =>
+      simp only [runMemo]
+      exact ih _ _ (by intro e he; simp [registerMemo] at he) (by simp [registerMemo, ht])
+
+/-- generated obligation: `update_privilege_levels` reaches `cache_clear()` on every path -/
+theorem update_clears_cache : updateClearsCache = true := by decide
+
+/-- **classification_cache_coherent**, with the facts read off the live source: classification through
+    the lru_cache after any history of registrations = classification on the fresh (current) table -/
+theorem classification_cache_coherent (t : Table) (ops : List COp) :
+    runMemo classifyMemoised updateClearsCache { tbl := t } ops = runMemo false true { tbl := t } ops := by
+  rw [update_clears_cache]
+  exact memo_run_eq _ ops _ _ (by intro e he; cases he) rfl
+
+/-- and it is the clearing that matters: without it, NX-OS with two sessions (one prompt pattern for all
+    sessions) classifies the session prompt as the first session only, after the second was registered -/
+theorem stale_memo_without_clear :
+    runMemo true false { tbl := nxos }
+      [.register ((nxosSess.get!).mk' "a"), .classify ["s:"], .register ((nxosSess.get!).mk' "b"), .classify ["s:"]]
+      = [["a"], ["a"]] ∧
+    runMemo true true { tbl := nxos }
+      [.register ((nxosSess.get!).mk' "a"), .classify ["s:"], .register ((nxosSess.get!).mk' "b"), .classify ["s:"]]
+      = [["a"], ["a", "b"]] := by
+  decide +kernel
 
 /-! ### non-vacuity: the hypotheses of `acquire_reaches` are met on Junos, root_shell → configuration_private
     (de-escalate `exit`, escalate `configure private`), and on the password-protected way back -/
